@@ -85,3 +85,93 @@ def run_path(text, method="collect", policy=None, delimiter=",", quotechar='"',
 
 def public(res):
     return {k: v for k, v in res.items() if not k.startswith("_")}
+
+
+# ---------------------------------------------------------------------------
+# named-paths groups through CsvPaths
+# ---------------------------------------------------------------------------
+SERIAL = ("collect_paths", "fast_forward_paths", "next_paths")
+BYLINE = ("collect_by_line", "fast_forward_by_line", "next_by_line")
+METHODS = SERIAL + BYLINE
+
+
+def new_csvpaths(**kw):
+    from csvpath import CsvPaths
+
+    return CsvPaths(print_default=False, **kw)
+
+
+def member_state(result):
+    """everything observable about one member of a finished (or aborted) run"""
+    p = result.csvpath
+    lines = result.lines
+    if lines is None:
+        got = None
+    elif isinstance(lines, list):
+        got = [list(x) for x in lines]
+    else:
+        try:
+            got = [list(x) for x in lines.next()]
+        except FileNotFoundError:
+            got = []
+    return {
+        "identity": p.identity,
+        "lines": got,
+        "variables": core.jsonable(p.variables),
+        "printouts": list(result.printouts),
+        "is_valid": p.is_valid,
+        "scan_count": p.scan_count,
+        "match_count": p.match_count,
+        "errors": [[e.line_count, type(e.error).__name__ if e.error is not None else None] for e in result.errors],
+        "unmatched": core.jsonable(result.unmatched) if result.unmatched is not None else None,
+        "stopped": p.stopped,
+    }
+
+
+def run_group(cps, pathsname, filename, method, if_all_agree=False):
+    """Run a registered group with one of the six methods.  Returns
+    {"raised", "yielded" (for next_*/collect_by_line), "members": [member_state...]}"""
+    buf = io.StringIO()
+    raised = None
+    yielded = None
+    with warnings.catch_warnings(), contextlib.redirect_stdout(buf):
+        try:
+            if method == "collect_paths":
+                cps.collect_paths(pathsname=pathsname, filename=filename)
+            elif method == "fast_forward_paths":
+                cps.fast_forward_paths(pathsname=pathsname, filename=filename)
+            elif method == "next_paths":
+                yielded = [list(x) for x in cps.next_paths(pathsname=pathsname, filename=filename)]
+            elif method == "collect_by_line":
+                yielded = [list(x) for x in cps.collect_by_line(pathsname=pathsname, filename=filename, if_all_agree=if_all_agree)]
+            elif method == "fast_forward_by_line":
+                cps.fast_forward_by_line(pathsname=pathsname, filename=filename, if_all_agree=if_all_agree)
+            elif method == "next_by_line":
+                yielded = [list(x) for x in cps.next_by_line(pathsname=pathsname, filename=filename, if_all_agree=if_all_agree)]
+            else:
+                raise ValueError(method)
+        except Exception as e:  # noqa: BLE001
+            raised = core.Raised(e).to_json()
+        members = []
+        try:
+            results = cps.results_manager.get_named_results(pathsname.lstrip("$").split(".")[0] if pathsname.startswith("$") else pathsname) or []
+        except Exception as e:  # noqa: BLE001
+            results = []
+            raised = raised or core.Raised(e).to_json()
+        for r in results:
+            try:
+                members.append(member_state(r))
+            except Exception as e:  # noqa: BLE001
+                members.append({"state_error": core.Raised(e).to_json()})
+    return {"raised": raised, "yielded": yielded, "members": members, "_results": results}
+
+
+def setup_group(sb, cps, pathsname, texts, filename, records, delimiter=",", quotechar='"', datafile="f.csv"):
+    """write the data file, register it and the group"""
+    import os
+
+    rel = sb.write_csv(datafile, records, delimiter=delimiter, quotechar=quotechar)
+    with warnings.catch_warnings(), contextlib.redirect_stdout(io.StringIO()):
+        cps.file_manager.add_named_file(name=filename, path=os.path.join(sb.root, rel))
+        cps.paths_manager.add_named_paths(name=pathsname, paths=list(texts))
+    return rel
